@@ -660,6 +660,10 @@ func C01(c *Ctx) {
 	r.Count("R01.1 sync.Map.Range sites", nsm)
 
 	r.Rule("R01.5", "the audit switch changes nothing but audit: in the built-in contracts the region executed only when EnableAudit() is true posts events of AUDIT_* types only - an INTERCHAIN / SERVICE / NODEMGR event posted there makes delivery sets, the service cache or membership depend on a node-local configuration flag.")
+	r.Rule("R01.8", freshUndoText)
+	c.freshUndo("R01.8")
+	r.Rule("R01.9", "what genesis writes is in the genesis block: in genesis.Initialize every write to ledger state (SetState / SetBalance / SetNonce / SetCode / AddState, also inside the helpers it calls) precedes FlushDirtyData - a write after the flush and PersistBlockData lives only in memory until the next block is flushed, so a node restarted before block 2 executes block 2 without it and computes another state root.")
+	c.c01GenesisWrites()
 	c.auditIndependence(c.Contracts(), "R01.5", true)
 	c.c01Clock()
 	c.c01Goroutines()
@@ -1218,4 +1222,49 @@ func helperKeyParams(g *ssa.Function) []int {
 	}
 	sort.Ints(out)
 	return out
+}
+
+// c01GenesisWrites: R01.9.
+func (c *Ctx) c01GenesisWrites() {
+	r := c.R
+	fn := c.fn("R01.9", "internal/ledger/genesis.Initialize")
+	if fn == nil {
+		return
+	}
+	isWriteDirect := func(in ssa.Instruction) bool {
+		call, ok := in.(ssa.CallInstruction)
+		if !ok || core.CalleeObj(call) == nil {
+			return false
+		}
+		switch core.CalleeObj(call).Name() {
+		case "SetState", "SetBalance", "SetNonce", "SetCode", "AddState":
+			return strings.Contains(core.CalleeName(call), "ledger.")
+		}
+		return false
+	}
+	isWrite := c.throughHelpers(isWriteDirect)
+	isFlush := callToMethod("FlushDirtyData")
+	flushes := sites(fn, isFlush)
+	writes := sites(fn, isWrite)
+	r.Floor("R01.9", "ledger writes in genesis.Initialize", len(writes), 3)
+	if len(flushes) == 0 {
+		r.Unknown("R01.9", "Initialize: flush site", c.P.Pos(fn.Pos()), "no FlushDirtyData call found in genesis.Initialize")
+		return
+	}
+	var starts []core.Point
+	for _, f := range flushes {
+		starts = append(starts, core.After(f))
+	}
+	after := core.Reach(starts, nil, nil)
+	bad := ""
+	for _, w := range writes {
+		if after.Has(w) {
+			bad = shortCallee(w.(ssa.CallInstruction)) + " at " + c.P.Pos(w.Pos())
+		}
+	}
+	if bad == "" {
+		r.OK("R01.9", "Initialize: every ledger write precedes the flush of the genesis block", c.P.Pos(fn.Pos()), fmt.Sprintf("%d write site(s), none reachable after FlushDirtyData", len(writes)))
+	} else {
+		r.Bad("R01.9", "Initialize: every ledger write precedes the flush of the genesis block", c.P.Pos(fn.Pos()), bad+" writes ledger state after the genesis block was flushed and persisted: the entries (the BNS defaults) are in no block's journal until block 2 is flushed; a node stopped and restarted before block 2 never has them, computes another state root for block 2 and answers the price query of block 3 with an error")
+	}
 }
